@@ -15,11 +15,17 @@
    application (level, argument vector) and returns results computed by an oracle from the
    complete argument vectors.
 
-   Two versions of the generator are modelled: [pinned] is the tree before the two C15 fixes
-   (unnamed parameters are not renamed; `return f(...)` is printed even for a function
-   without results), [fixed] is the tree with repo-patches/C15-fix-*.patch applied.  The
-   property theorems are about [fixed]; the `_refuted` witnesses about [pinned] document the
-   former defects, those about [fixed] the open findings. *)
+   Three versions of the generator are modelled: [pinned] is the tree before the first two C15
+   fixes (unnamed parameters are not renamed; `return f(...)` is printed even for a function
+   without results); [fixed] is the tree with those two fixes but the old naming: the wrapper's
+   own parameter is always called f and every parameter list is renamed on its own
+   ([rename_blank]); [hygienic] is the current tree (repo-patches/C15-fix-1-param-named-f.patch
+   and C15-fix-2-uncurry-duplicate-names.patch): the wrapper's own parameter gets a name the
+   user's signature does not use (derive.UnusedName), the names the renaming makes up avoid the
+   names of results, of the other level of uncurry and of parameters renamed before, and uncurry
+   renames an outer parameter that clashes with the inner level (RenameClashingIdentifierWith).
+   The property theorems are about [hygienic]; the `_refuted` witnesses about [pinned] and [fixed]
+   document the former defects. *)
 From Coq Require Import String Ascii List Bool Arith Lia ZArith DecimalString DecimalNat.
 Import ListNotations.
 Open Scope string_scope.
@@ -48,9 +54,16 @@ Definition itoa (n : nat) : string := NilEmpty.string_of_uint (Nat.to_uint n).
 
 Record version := mkVersion {
   v_blank_empty : bool;   (* params.go treats the empty (absent) name like `_`     (fix B) *)
-  v_void_stmt : bool }.   (* no `return` keyword in front of a call without results (fix A) *)
-Definition pinned : version := mkVersion false false.
-Definition fixed : version := mkVersion true true.
+  v_void_stmt : bool;     (* no `return` keyword in front of a call without results (fix A) *)
+  v_hygiene : bool }.     (* made-up names avoid the names in scope (fixes C and D) *)
+Definition pinned : version := mkVersion false false false.
+Definition fixed : version := mkVersion true true false.
+Definition hygienic : version := mkVersion true true true.
+
+Fixpoint memb (x : name) (l : list name) : bool :=
+  match l with [] => false | y :: r => (x =s y) || memb x r end.
+Fixpoint nodupb (l : list name) : bool :=
+  match l with [] => true | x :: r => negb (memb x r) && nodupb r end.
 
 (* derive/params.go *)
 Definition is_blank (v : version) (n : name) : bool :=
@@ -71,8 +84,49 @@ Fixpoint rename_from (v : version) (pre : string) (i : nat) (ps : list (name * t
 Definition rename_blank (v : version) (pre : string) (ps : list (name * ty)) : list (name * ty) :=
   if has_blank v ps then rename_from v pre 0 ps else ps.
 
+(* derive.UnusedName: `for isUsed(name, tuples) { name += "_" }`.  The loop is modelled on fuel;
+   [length taken] rounds always suffice (Proofs.unused_name_fresh: the result is never taken),
+   so the fuel never runs out *)
+Fixpoint unused_from (fuel : nat) (n : name) (taken : list name) : name :=
+  match fuel with
+  | O => n
+  | S k => if memb n taken then unused_from k (String.append n "_") taken else n
+  end.
+Definition unused_name (n : name) (taken : list name) : name := unused_from (length taken) n taken.
+
+(* derive.RenameClashingIdentifierWith (current tree).  [taken] = the names of the signature's own
+   results followed by the names of the other tuples; trigger: some parameter is blank or has a
+   taken name; then a parameter is renamed if it is blank, starts with the prefix or has a taken
+   name, to prefix ++ itoa index made unused among the names decided so far ([done] = vars[:i])
+   and the taken names *)
+Fixpoint rename_avoid_from (v : version) (pre : string) (i : nat) (taken done : list name)
+  (ps : list (name * ty)) : list (name * ty) :=
+  match ps with
+  | [] => []
+  | (n, t) :: r =>
+      let n' := if is_blank v n || prefix pre n || memb n taken
+                then unused_name (String.append pre (itoa i)) (done ++ taken) else n in
+      (n', t) :: rename_avoid_from v pre (S i) taken (done ++ [n']) r
+  end.
+
+Definition needs_rename (v : version) (taken : list name) (ps : list (name * ty)) : bool :=
+  has_blank v ps || existsb (fun p => memb (fst p) taken) ps.
+
+Definition rename_avoid (v : version) (pre : string) (taken : list name) (ps : list (name * ty))
+  : list (name * ty) :=
+  if needs_rename v taken ps then rename_avoid_from v pre 0 taken [] ps else ps.
+
+(* the renaming of a parameter list in version v; [taken] is only looked at by the current tree *)
+Definition rename_params (v : version) (pre : string) (taken : list name) (ps : list (name * ty))
+  : list (name * ty) :=
+  if v_hygiene v then rename_avoid v pre taken ps else rename_blank v pre ps.
+
 Definition rename_sig (v : version) (pre : string) (s : sig) : sig :=
-  mkSig (rename_blank v pre (s_params s)) (s_results s) (s_variadic s).
+  mkSig (rename_params v pre (names (s_results s)) (s_params s)) (s_results s) (s_variadic s).
+
+(* the name of the derived function's own parameter: UnusedName("f", params, results) *)
+Definition fname (v : version) (ps rs : list name) : name :=
+  if v_hygiene v then unused_name "f" (ps ++ rs) else "f".
 
 (* split_last l = (l[:len-1], l[len-1]) *)
 Fixpoint split_last {A} (l : list A) : option (list A * A) :=
@@ -136,11 +190,6 @@ Fixpoint lookup_all (e : env) (xs : list name) : option (list val) :=
               | _, _ => None
               end
   end.
-
-Fixpoint memb (x : name) (l : list name) : bool :=
-  match l with [] => false | y :: r => (x =s y) || memb x r end.
-Fixpoint nodupb (l : list name) : bool :=
-  match l with [] => true | x :: r => negb (memb x r) && nodupb r end.
 
 (* a parameter (or result) list is either entirely unnamed or entirely named *)
 Definition names_form (l : list name) : bool :=
@@ -276,15 +325,20 @@ Definition curry_sig (s : sig) : option ((name * ty) * sig) :=    (* currySig *)
   | [] => None
   end.
 
-Definition curry_term (v : version) (s : sig) : option expr :=
+Definition curry_term_f (fn : name) (v : version) (s : sig) : option expr :=
   match curry_sig s with
   | Some (first, g) =>
-      Some (Lam ["f"] [""] (SReturn1
+      Some (Lam [fn] [""] (SReturn1
              (Lam [fst first] [""] (SReturn1
                (Lam (names (s_params g)) (names (s_results g))
-                  (call_stmt v (s_results s) (Call (Var "f") (names (s_params s)))))))))
+                  (call_stmt v (s_results s) (Call (Var fn) (names (s_params s)))))))))
   | None => None
   end.
+
+Definition sig_fname (v : version) (s : sig) : name :=
+  fname v (names (s_params s)) (names (s_results s)).
+
+Definition curry_term (v : version) (s : sig) : option expr := curry_term_f (sig_fname v s) v s.
 
 (* --- flip --- *)
 Definition add_flip (v : version) (s : sig) : option sig :=
@@ -296,14 +350,16 @@ Definition flip_sig (s : sig) : option sig :=                      (* flipSig *)
   | _ => None
   end.
 
-Definition flip_term (v : version) (s : sig) : option expr :=
+Definition flip_term_f (fn : name) (v : version) (s : sig) : option expr :=
   match flip_sig s with
   | Some g =>
-      Some (Lam ["f"] [""] (SReturn1
+      Some (Lam [fn] [""] (SReturn1
              (Lam (names (s_params g)) (names (s_results g))
-                (call_stmt v (s_results s) (Call (Var "f") (names (s_params s)))))))
+                (call_stmt v (s_results s) (Call (Var fn) (names (s_params s)))))))
   | None => None
   end.
+
+Definition flip_term (v : version) (s : sig) : option expr := flip_term_f (sig_fname v s) v s.
 
 (* --- apply: wants >= 1 parameter; the last parameter's name becomes a parameter of the
        derived function itself --- *)
@@ -316,17 +372,22 @@ Definition apply_sig (s : sig) : option ((name * ty) * sig) :=     (* applySig *
   | None => None
   end.
 
-Definition apply_term (v : version) (s : sig) : option expr :=
+Definition apply_term_f (fn : name) (v : version) (s : sig) : option expr :=
   match apply_sig s with
   | Some (l, g) =>
-      Some (Lam ["f"; fst l] [""] (SReturn1
+      Some (Lam [fn; fst l] [""] (SReturn1
              (Lam (names (s_params g)) (names (s_results g))
-                (call_stmt v (s_results s) (Call (Var "f") (names (s_params s)))))))
+                (call_stmt v (s_results s) (Call (Var fn) (names (s_params s)))))))
   | None => None
   end.
 
+Definition apply_term (v : version) (s : sig) : option expr := apply_term_f (sig_fname v s) v s.
+
 (* --- uncurry: f : func(outer) func(inner) results.  Add wants exactly one outer parameter and
-       one result of function type, renames inner with "innerParam_" and outer with "param_" --- *)
+       one result of function type, renames inner with "innerParam_" (avoiding the results) and
+       outer with "param_" (current tree: also when it clashes with the renamed inner parameters or
+       the results; its own result, the function, is part of the taken names as for every
+       signature) --- *)
 Record csig := mkCsig {
   c_outer : list (name * ty);
   c_rname : name;                      (* name of the (function-typed) result of the outer level *)
@@ -336,8 +397,9 @@ Record csig := mkCsig {
 
 Definition add_uncurry (v : version) (c : csig) : option csig :=
   if length (c_outer c) =? 1 then
-    Some (mkCsig (rename_blank v "param_" (c_outer c)) (c_rname c)
-                 (rename_blank v "innerParam_" (c_inner c)) (c_results c) (c_variadic c))
+    let inner := rename_params v "innerParam_" (names (c_results c)) (c_inner c) in
+    let outer := rename_params v "param_" (c_rname c :: names inner ++ names (c_results c)) (c_outer c) in
+    Some (mkCsig outer (c_rname c) inner (c_results c) (c_variadic c))
   else None.
 
 Definition uncurry_sig (c : csig) : sig :=                          (* uncurrySig *)
@@ -346,12 +408,15 @@ Definition uncurry_sig (c : csig) : sig :=                          (* uncurrySi
 Definition csig_names_ok (c : csig) : bool :=
   lam_ok (names (c_outer c)) [c_rname c] && lam_ok (names (c_inner c)) (names (c_results c)).
 
-Definition uncurry_term (v : version) (c : csig) : expr :=
+Definition uncurry_term_f (fn : name) (v : version) (c : csig) : expr :=
   let g := uncurry_sig c in
-  Lam ["f"] [""] (SReturn1
+  Lam [fn] [""] (SReturn1
     (Lam (names (s_params g)) (names (s_results g))
        (call_stmt v (c_results c)
-          (Call (Call (Var "f") (names (c_outer c))) (names (c_inner c)))))).
+          (Call (Call (Var fn) (names (c_outer c))) (names (c_inner c)))))).
+
+Definition uncurry_term (v : version) (c : csig) : expr :=
+  uncurry_term_f (sig_fname v (uncurry_sig c)) v c.
 
 (* the curried type produced by Curry, as input of Uncurry *)
 Definition csig_of_curry (s : sig) : option csig :=
@@ -472,9 +537,16 @@ Definition prim_curried (c : csig) : val :=
 (* ------------------------------------------------------------------------------------ *)
 (* the guard of the theorems, as a boolean (also used by the evaluator)                  *)
 
-Definition good_name (n : name) : bool := bindable n && negb (n =s "f").
+(* what the closure nests need of the names they are printed with: [fn] is the wrapper's own
+   parameter, [ps] all parameter names of all levels and [rs] the result names, after renaming.
+   It is a lemma about the current tree (Proofs.flat_guard, Proofs.uncurry_guard), not a
+   hypothesis of the property theorems *)
+Definition guardf (fn : name) (ps rs : list name) : bool :=
+  bindable fn && negb (memb fn ps) && negb (memb fn rs)
+  && forallb bindable ps && names_form rs && nodupb (ps ++ filter bindable rs).
 
-(* all parameter names of all levels [ps] and result names [rs] (after renaming) *)
-Definition guardb (ps rs : list name) : bool :=
-  forallb good_name ps && names_form rs && nodupb (ps ++ filter bindable rs)
-  && negb (memb "f" rs).
+(* the hypothesis of the property theorems: the signature is one Go accepts.  Results are either
+   all named or all unnamed; the names that can be referred to are pairwise distinct among the
+   parameters and among the results (Go demands more: also between the two) *)
+Definition src_ok (ps rs : list name) : bool :=
+  names_form rs && nodupb (filter bindable ps) && nodupb (filter bindable rs).
